@@ -138,6 +138,17 @@ func batch(res *evid.Result, bi int, root string) {
 }
 `, name, 3+k)})
 	}
+	// a function carrying far more string data than the per-function budget keeps (24 distinct
+	// literals of 4 KiB each): whatever part is kept, it is the same part in every analysis
+	{
+		var sb strings.Builder
+		sb.WriteString("func Dropper0(a int, b int) (res int) {\n")
+		for k := 0; k < 24; k++ {
+			fmt.Fprintf(&sb, "\tres += len(hs1(%q))\n", fmt.Sprintf("chunk-%02d:", k)+strings.Repeat(string(rune('A'+k)), 4200))
+		}
+		sb.WriteString("\treturn res + a - b\n}\n")
+		base.Funcs = append(base.Funcs, gen.Func{Name: "Dropper0", Sig: gen.SigII, Exec: true, Tags: []string{"over-budget-strings"}, Text: sb.String()})
+	}
 	kindSets := [][]string{{"rename-locals"}, {"rename-func"}, {"comment", "reorder"}, {"rename-locals", "rename-func", "comment", "reorder"}}
 	var vs []*pairs.Variant
 	for k, ks := range kindSets {
